@@ -31,6 +31,16 @@ CKW = ["double", "float", "const", "void", "char", "static", "struct", "switch",
 SYMPY = ["E", "I", "S", "N", "O", "Q", "beta", "gamma", "zeta", "oo", "zoo", "nan", "Symbol", "x0", "e", "pi2", "Abs2"]
 FRESH = ["zq_fresh", "Vm", "Ca_i"]
 ROLES = ["state", "parameter", "intermediate", "condintermediate"]
+# two model names in one model: a name the printer renames (trailing underscore) next to the name it is renamed to, and
+# a parameter named like a state derivative / like another quantity's renamed form
+PAIRS = [("lambda", "lambda_"), ("lambda_", "lambda"), ("numpy", "numpy_"), ("numpy_", "numpy"), ("double", "double_"),
+         ("double_", "double"), ("M_PI_", "M_PI"), ("fabs", "fabs_"), ("len_", "len"), ("in", "in_"), ("dx_dt", "i0"),
+         ("dy_dt", "i0"), ("b", "dx_dt_"), ("x_", "y_"), ("async", "async_"), ("shape_", "shape")]
+
+
+def pair_model(A, B):
+    return (f"parameters(a=0.5, {A}=2.0)\nstates(x=1.0, y=3.0)\n{B} = a*x + 7\ndx_dt = -{B} + {A}*x\n"
+            f"dy_dt = x - y*a + {B}*t*{A} + abs(x)\n")
 
 
 def model_for(ident, role):
@@ -70,6 +80,9 @@ def tasks(tier, seed):
                 bs = backends
             for b in bs:
                 out.append({"family": "IDENT", "id": f"{ident}:{role}", "text": text, "opts": {"ident": ident, "role": role, "backend": b}})
+    for k, (A, B) in enumerate(PAIRS):
+        for b in (backends if tier != "quick" else [backends[k % 3], backends[(k + 1) % 3]]):
+            out.append({"family": "PAIR", "id": f"{A}+{B}", "text": pair_model(A, B), "opts": {"ident": A, "role": "pair", "backend": b}})
     return out + witness_tasks(PROP)
 
 
